@@ -184,6 +184,14 @@ def main():
     ap.add_argument("--setup", action="store_true")
     a = ap.parse_args()
     seed = int(os.environ.get("VERIF_SEED", "0") or 0)
+    if a.replay:
+        # a replay runs under the hash seed of the run that found it
+        try:
+            hs = str(json.loads(Path(a.replay).read_text()).get("hashseed", ""))
+        except Exception:  # noqa
+            hs = ""
+        if hs and os.environ.get("PYTHONHASHSEED") != hs:
+            os.execve(sys.executable, [sys.executable] + sys.argv, dict(os.environ, PYTHONHASHSEED=hs))
     try:
         if a.setup:
             sys.exit(setup())
